@@ -161,6 +161,34 @@ PROPS = {
             J("par2", "C14_step", bound="1 file of 4/5/8 bytes, 1 block present or deleted, 7 damage kinds incl. arbitrary content; Repair, then Verify and a second Repair", must_reach=["failed", "succeeded"]),
         ],
     ),
+    "C06": dict(
+        explanation="sets produced by an independent reference writer (in the harness) in many layouts are verified and repaired by the real decoder",
+        assumptions=["the directory search below fileIO.FindWithPrefixAndSuffix (filepath.Glob) is modelled by symFS prefix/suffix matching; the real Glob is outside this check (see DESIGN.md: the glob-metacharacter defect is not reachable by the engine)",
+                     "concrete file contents; exponents from a fixed list"],
+        jobs=[
+            J("par2", "C06_layouts", bound="1 file in a sub-directory, 2 blocks with exponent pairs (0,1),(1,0),(2,7),(5,100),(1000,3),(3000,0); index and volume packet order: identity, reversed, rotated, evens-then-odds, duplicated; foreign-set and unknown-type packets interleaved", must_reach=["repaired"]),
+            J("par2", "C06_volume_names", bound="2 files, blocks 0..2 spread over 1..3 volume files named s.<anything>.par2 (spaces, extra dots)"),
+        ],
+    ),
+    "C17": dict(
+        explanation="relational harness: two runs of the real Create on the same symbolic contents must produce byte-identical write logs",
+        assumptions=["PAR2 (PAR1 order is significant by format; PAR1 determinism is part of the C04/C10 harnesses)", "os.Getwd is modelled by zzverifrt.SetCwd (a real chdir on native replay)"],
+        jobs=[
+            J("par2", "C17_order_goroutines", bound="2 files of 5 and 4 symbolic bytes, 2 blocks, input list reversed, goroutines 1 vs 1..3"),
+            J("par2", "C17_order_three", tier="thorough", bound="3 files, every permutation of the input list, goroutines 1 vs 1..3", timeout=3000),
+            J("par2", "C17_map_order", bound="2 files, 3 blocks, every iteration order of every map ranged over during the second run (symbolic permutation)"),
+            J("par2", "C17_paths", bound="one file in a sub-directory: absolute vs relative, ./ and // spellings, working directory = set directory, its parent, a sibling, a sub-directory"),
+        ],
+    ),
+    "C18": dict(
+        explanation="the symbolic file system fails the n-th read / the directory listing / the n-th write (optionally leaving a torn prefix), n ranging over every I/O call of the operation",
+        assumptions=["PAR2 only so far", "single fault per run"],
+        jobs=[
+            J("par2", "C18_create_faults", bound="2 input files, 3 blocks (index + 2 volumes): fault at each of 2 reads / 3 writes, torn prefix of 0, 64, 100 bytes or none"),
+            J("par2", "C18_verify_faults", bound="2 files, 2 blocks, intact or one file missing: fault at each read, or at the directory listing"),
+            J("par2", "C18_repair_faults", bound="2 files both needing repair, 3 blocks: fault at each read, the listing, or each write (torn 0 / 2 bytes / untouched)"),
+        ],
+    ),
     "C13": dict(
         explanation="truncation at every offset, any single corrupted byte, deletion/emptying of any subset of files, interrupted Create prefixes; PAR2",
         assumptions=["PAR2 only so far", "MD5 injective model"],
